@@ -516,6 +516,11 @@ func (s *shard) WriteRows(rows []influx.Row, binaryRows []byte) error {
 
 	s.mu.RLock()
 	defer s.mu.RUnlock()
+	// Close raises cacheClosed and then takes s.mu exclusively; a write that passed the
+	// check above and waited behind Close must not go on with the released index and tables.
+	if s.isClosing() {
+		return errno.NewError(errno.ErrShardClosed, s.ident.ShardID)
+	}
 	defer s.markBeingWritten()()
 
 	var err error
